@@ -29,6 +29,9 @@ type BFStep struct {
 	NoCache bool     `json:"no_cache,omitempty"` // --no-cache
 	All     bool     `json:"all,omitempty"`      // wrgl commit --all
 	Diff    bool     `json:"diff,omitempty"`     // run `wrgl diff main` first (creates/refreshes the cached commit)
+	// Explicit: `wrgl commit main FILE MSG [-p ...]` with the file named on the command line (no --set-file): the key is
+	// what -p says, and none at all without -p - whatever branch.main.primaryKey holds
+	Explicit bool `json:"explicit,omitempty"`
 }
 
 type C01BFPlan struct {
@@ -111,6 +114,12 @@ func init() {
 				st.NoCache = r.Chance(0.1)
 				st.All = st.PK == nil && r.Chance(0.2) || st.SetPK && r.Chance(0.3)
 				st.Diff = r.Chance(0.25)
+				if !st.SetPK && r.Chance(0.12) {
+					st.Explicit, st.All = true, false
+					if r.Chance(0.6) {
+						st.PK = nil
+					}
+				}
 				p.Steps = append(p.Steps, st)
 			}
 			return p
@@ -339,7 +348,22 @@ func execC01BF(t *testing.T, raw json.RawMessage, res *Result) {
 			n.Clock += time.Second
 		}
 		var args []string
-		if st.All {
+		if st.Explicit {
+			if st.All || st.SetPK {
+				res.Invalid("explicit step")
+				return
+			}
+			key = over // nil without -p: a keyless table
+			args = []string{"commit", "main", file, fmt.Sprintf("m%d", i)}
+			if len(over) > 0 {
+				args = append(args, "-p", strings.Join(over, ","))
+			}
+			args = append(args, delimArgs()...)
+			res.probe("explicit_file_commit", 1)
+			if len(over) == 0 && len(confKey) > 0 {
+				res.probe("explicit_file_commit_without_p_on_keyed_branch", 1)
+			}
+		} else if st.All {
 			args = []string{"commit", "--all", fmt.Sprintf("m%d", i)}
 		} else {
 			args = []string{"commit", "main", fmt.Sprintf("m%d", i)}
@@ -360,7 +384,8 @@ func execC01BF(t *testing.T, raw json.RawMessage, res *Result) {
 			return
 		}
 		sig, sigOK := sigOf(key)
-		if sigOK && lastSigOK && sig == lastSig {
+		// (the explicit-file form always makes a commit; only the branch-file forms skip unchanged content)
+		if sigOK && lastSigOK && sig == lastSig && !st.Explicit {
 			if r, _ := n.Refs(); !bytes.Equal(r["heads/main"], headBefore) {
 				res.Violate("unchanged-data-recommitted", "%s (wrgl %s): columns, key and rows are what the branch already holds, yet a new commit was made: %s", step, strings.Join(args, " "), cr.Stdout)
 				return
